@@ -36,6 +36,8 @@ type vcase struct {
 	Rounds int   `json:"rounds"` // number of rounds
 	Seed   int64 `json:"seed"`
 	Keep   int   `json:"keep"` // rounds whose datagrams are reported in full
+	// exchange_seq: the requests one Requester makes, one after the other, of one Responder
+	Items []vcase `json:"items"`
 }
 
 // ---- burst lane: k requesters whose queries reach the responder back to back ----
@@ -329,6 +331,8 @@ type vres struct {
 	Out2    string `json:"out2"`
 	Err     string `json:"err"`
 	Panic   string `json:"panic"`
+	Items   []vres `json:"items,omitempty"`
+	Ran     bool   `json:"ran"`
 }
 
 func domainOf(l []string) dns.Name {
@@ -367,6 +371,8 @@ func runCase(c vcase) (r vres) {
 		exchange(c, &r)
 	case "burst": // k real requesters whose queries reach one real responder back to back
 		burst(c, &r)
+	case "exchange_seq": // one real requester, one real responder, k request/response exchanges in a row over loopback UDP
+		exchangeSeq(c, &r)
 	}
 	return
 }
@@ -455,6 +461,122 @@ func exchange(c vcase, r *vres) {
 	}
 }
 
+
+func exchangeSeq(c vcase, r *vres) {
+	var labels []string
+	for _, l := range domainOf(c.Domain) {
+		labels = append(labels, string(l))
+	}
+	domain := strings.Join(labels, ".")
+	priv, err := encryption.GeneratePrivkey()
+	if err != nil {
+		r.Err = "keygen: " + err.Error()
+		return
+	}
+	rs, err := NewDnsResponder(domain, "127.0.0.1:0", priv)
+	if err != nil {
+		r.Err = "responder: " + err.Error()
+		return
+	}
+	defer rs.Close()
+	answers := map[string][]byte{}
+	for _, it := range c.Items {
+		a, _ := hex.DecodeString(it.Resp)
+		answers[it.Data] = a
+	}
+	var mu sync.Mutex
+	var seen []string
+	go func() {
+		_ = rs.RecvAndRespond(func(p []byte) ([]byte, error) {
+			k := hex.EncodeToString(p)
+			mu.Lock()
+			seen = append(seen, k)
+			mu.Unlock()
+			return answers[k], nil
+		})
+	}()
+	var rc *recConn
+	rq, err := requester.NewRequester(&requester.Config{
+		TransportMethod: requester.UDP,
+		Target:          rs.transport.LocalAddr().String(),
+		BaseDomain:      domain,
+		Pubkey:          encryption.PubkeyFromPrivkey(priv),
+		DialTransport: func(ctx context.Context, network, addr string) (net.Conn, error) {
+			conn, err := (&net.Dialer{}).DialContext(ctx, network, addr)
+			if err != nil {
+				return nil, err
+			}
+			rc = &recConn{Conn: conn}
+			return rc, nil
+		},
+	})
+	if err != nil {
+		r.Err = "requester: " + err.Error()
+		return
+	}
+	counts := func() (int, int, int) {
+		mu.Lock()
+		ns := len(seen)
+		mu.Unlock()
+		if rc == nil {
+			return 0, 0, ns
+		}
+		rc.mu.Lock()
+		defer rc.mu.Unlock()
+		return len(rc.sent), len(rc.recvd), ns
+	}
+	r.Items = make([]vres, len(c.Items))
+	type result struct {
+		b   []byte
+		err error
+	}
+	for i, it := range c.Items {
+		payload, _ := hex.DecodeString(it.Data)
+		it0 := &r.Items[i]
+		it0.Ran = true
+		s0, v0, n0 := counts()
+		done := make(chan result, 1)
+		go func() {
+			b, err := rq.RequestAndRecv(payload)
+			done <- result{b, err}
+		}()
+		select {
+		case res := <-done:
+			it0.Ok2 = res.err == nil
+			it0.Out2 = hex.EncodeToString(res.b)
+			if res.err != nil {
+				it0.Err = res.err.Error()
+			}
+		case <-time.After(20 * time.Second):
+			it0.Timeout = true
+		}
+		s1, v1, n1 := counts()
+		it0.NSent, it0.NRecvd = s1-s0, v1-v0
+		if rc != nil {
+			rc.mu.Lock()
+			if s1 > s0 {
+				it0.QWire = hex.EncodeToString(rc.sent[s0])
+			}
+			if v1 > v0 {
+				it0.RWire = hex.EncodeToString(rc.recvd[v0])
+			}
+			rc.mu.Unlock()
+		}
+		mu.Lock()
+		if n1 > n0 {
+			it0.Seen, it0.SeenPay = true, seen[n0]
+		}
+		mu.Unlock()
+		if it0.Timeout {
+			break // the blocked call still owns the transport: the sequence ends here
+		}
+	}
+	if rc != nil {
+		_ = rq.Close()
+	}
+	r.Ok = true
+}
+
 func TestVerifC15Responder(t *testing.T) {
 	raw, err := os.ReadFile(os.Getenv("VERIF_CASES"))
 	if err != nil {
@@ -471,7 +593,7 @@ func TestVerifC15Responder(t *testing.T) {
 		if c.Op == "burst" {
 			continue
 		}
-		if c.Op != "exchange" {
+		if c.Op != "exchange" && c.Op != "exchange_seq" {
 			res[i] = runCase(c)
 			continue
 		}
